@@ -47,7 +47,7 @@ Section All.
     - (* shExpMatch *)
       destruct args as [|[| | | |s0] [|[| | | |s1] [|]]]; cbn [spec_call]; try same.
       destruct (glob_domain s0 s1) eqn:Ed; [right|left; reflexivity].
-      cbn [call_helper]. rewrite (shexp_is_glob s0 s1 Hrw Han Ed). destruct (glob s1 s0); reflexivity.
+      cbn [call_helper]. rewrite (shexp_is_glob s0 s1 Hrw Han Ed), glob_run_eq. destruct (glob s1 s0); reflexivity.
     - (* isInNet *)
       destruct args as [|[| | | |s0] [|[| | | |s1] [|[| | | |s2] [|]]]]; cbn [spec_call]; try same.
       right. cbn [call_helper]. rewrite (isInNet_is_mask Hmax Hm Hs e s0 s1 s2 He). reflexivity.
